@@ -899,6 +899,40 @@ func (ec *evalCtx) call(x *ast.CallExpr) (T, types.Type, error) {
 			return T{}, nil, err
 		}
 		return T{S: eq(app("ityp", v.S), fmt.Sprint(vc.typeID(tt))), Sort: SBool}, types.Typ[types.Bool], nil
+	case "captured":
+		// captured(f, name): the value of the variable `name` captured by the
+		// closure value f (f must have been created on this path)
+		if err := argN(2); err != nil {
+			return T{}, nil, err
+		}
+		{
+			fv, _, err := ec.eval(x.Args[0])
+			if err != nil {
+				return fv, nil, err
+			}
+			id, ok := x.Args[1].(*ast.Ident)
+			if !ok {
+				return T{}, nil, ec.errf(x, "captured(f, name)")
+			}
+			ci := vc.closureByRef[fv.S]
+			if ci == nil {
+				// not a closure created on this path: nothing is known about it
+				vc.nfresh++
+				n := fmt.Sprintf("captured!%d", vc.nfresh)
+				vc.declare(n, nil, SInt)
+				return T{S: n, Sort: SInt}, nil, nil
+			}
+			for i, v := range ci.fn.FreeVars {
+				if v.Name() != id.Name || i >= len(ci.bindings) {
+					continue
+				}
+				if pt, isPtr := v.Type().Underlying().(*types.Pointer); isPtr {
+					return vc.loadAt(ec.now, ci.bindings[i], pt.Elem()), pt.Elem(), nil
+				}
+				return ci.bindings[i], v.Type(), nil
+			}
+			return T{}, nil, ec.errf(x, "closure does not capture %s", id.Name)
+		}
 	case "ref":
 		// ref(x): the pointer held by an interface value (or x itself)
 		if err := argN(1); err != nil {
@@ -912,6 +946,21 @@ func (ec *evalCtx) call(x *ast.CallExpr) (T, types.Type, error) {
 			return T{S: app("iref", v.S), Sort: SInt}, types.Typ[types.Uintptr], nil
 		}
 		return T{S: v.S, Sort: SInt}, types.Typ[types.Uintptr], nil
+	case "arr":
+		// arr(s): the backing array of a slice
+		if err := argN(1); err != nil {
+			return T{}, nil, err
+		}
+		{
+			v, _, err := ec.eval(x.Args[0])
+			if err != nil {
+				return v, nil, err
+			}
+			if v.Sort != SSlice {
+				return T{}, nil, ec.errf(x, "arr of a non-slice")
+			}
+			return T{S: app("sarr", v.S), Sort: SInt}, types.Typ[types.Uintptr], nil
+		}
 	case "older":
 		// older(a, b): object a was allocated before object b (nil is older than everything)
 		if err := argN(2); err != nil {
@@ -945,8 +994,8 @@ func (ec *evalCtx) call(x *ast.CallExpr) (T, types.Type, error) {
 			return v, nil, err
 		}
 		if v.Sort == SSlice {
-			// nil or backed by an array allocated by this function
-			return T{S: or(eq(app("sarr", v.S), "0"), app(">", app("root", app("sarr", v.S)), ec.old.mark)), Sort: SBool}, types.Typ[types.Bool], nil
+			// backed by an array allocated by this function
+			return T{S: app(">", app("root", app("sarr", v.S)), ec.old.mark), Sort: SBool}, types.Typ[types.Bool], nil
 		}
 		return T{S: app(">", app("root", v.S), ec.old.mark), Sort: SBool}, types.Typ[types.Bool], nil
 	case "allocated":
